@@ -16,7 +16,7 @@ use vharness::*;
 
 fn main() {
     let args = parse_args();
-    quiet_panics();
+    if std::env::var("VERIF_LOUD").is_err() { quiet_panics(); }
     let mut rng = Rng::new(args.seed);
     let mut cases = Cases::create(&args.out);
     let null_loss = probe_null_loss();
@@ -26,7 +26,12 @@ fn main() {
     install_gate();
     let mut results = par_map(ijobs, 8, |job: Job| { let obs = run_history(&job.cfg, &job.steps); (job, obs) });
     uninstall_gate();
-    let jobs = standard_jobs(&args, &mut rng, &tables, &plain_column_pool(), null_loss);
+    let mut jobs = if args.rest.iter().any(|a| a == "--only-inter") { vec![] } else { standard_jobs(&args, &mut rng, &tables, &plain_column_pool(), null_loss) };
+    if !args.rest.iter().any(|a| a == "--only-inter") || args.rest.iter().any(|a| a == "--wide") {
+        // table names that differ only in what sanitize_table_name adds; every storage layout through flush + restart, mem_lz4 on / off
+        jobs.extend(name_jobs(&args));
+        jobs.extend(layout_jobs(&args, &mut rng, null_loss));
+    }
     results.extend(par_map(jobs, 8, |job: Job| { let obs = run_history(&job.cfg, &job.steps); (job, obs) }));
     if null_loss {
         cases.push("probe:compaction-null-loss-present", "cfg=4,8388608,1,1,1000,67108864", "MT=[]", NULL_LOSS_NOTE);
@@ -34,8 +39,9 @@ fn main() {
     for (job, obs) in results {
         for k in 0..obs.len() {
             let line = history_line(&job.cfg, &obs, k);
-            let note = if k + 1 == obs.len() || obs[k].dead { format!("{} | {}", describe(&job.cfg, &job.steps[..=k]), obs[k].detail) } else { String::new() };
-            cases.push(&format!("{}:{}", job.class, obs[k].kind), &line, &obs[k].dump, &note);
+            let note = if k + 1 == obs.len() || obs[k].dead { format!("{} | {}", describe(&job.cfg, &job.steps[..=obs[k].step]), obs[k].detail) } else { String::new() };
+            let tags = if obs[k].tags.is_empty() { String::new() } else { format!(":{}", obs[k].tags) };
+            cases.push(&format!("{}{}:{}", job.class, tags, obs[k].kind), &line, &obs[k].dump, &note);
         }
     }
     cases.finish();
